@@ -7,8 +7,8 @@ interface-level fields and inline fragments on possible types, two kinds of name
 
 **(a) spreads of fragments on a possible (object) type** `T` — a variant selection like an inline fragment on `T`:
 * a variant whose only selection is one such spread is the type alias `type …On<T> = F`;
-* several selections on one variant (at most one inline fragment and any number of spreads) contribute to one struct
-  `…On<T>`: the inline fragment's fields as own members, every spread as a `#[serde(flatten)]` member `snake(F): F`,
+* several selections on one variant (any number of inline fragments and of spreads) contribute to one struct
+  `…On<T>`: the inline fragments' fields as own members, every spread as a `#[serde(flatten)]` member `snake(F): F`,
   in selection order.
   Fragment bodies: spread-free object-level selection sets of the class `VariantOp` (`fragOk`, as for `FragmentOp`).
 
@@ -17,19 +17,27 @@ interface-level fields and inline fragments on possible types, two kinds of name
 `on`; the variants are unaffected.  Fragment bodies: spread-free abstract-level selection sets of `VariantOp` on the same
 type (`fragOkB`): the fragment's own type(s) are those of an abstract position (struct + tagged enum, or tagged enum).
 
+**(c) a selection set on an abstract type that is a lone spread of a fragment on the type itself** (`hero { ...CF }`,
+`loneB`): the position is the type alias `type … = CF`; `__typename` comes from the fragment.
+
 The class is closed under nesting: the sub-selections of fields and the bodies of inline fragments are selection sets
-of the class again.  Decidable side conditions at an abstract position (`absOkS`): those of `absOk` (so `__typename` is
-selected at the position itself); every spread `spreadOkA` — `fragOk` on a possible type and **no field key of the
-fragment is an interface-level response key** — or `spreadOkB` — `fragOkB` and **no field key of the fragment (those
-inside its inline fragments included) is an interface-level field key**; **the field keys of the selections on one variant
-are pairwise distinct** (`varKeys`).  All three exclusions are necessary, see `C01VariantSpread.lean`.
+of the class again.  Decidable side conditions at an abstract position (`absOkL`: `loneB`, or `absOkS`): those of `absOk`
+without "at most one inline fragment per type" (`absOk2`; so `__typename` is selected at the position itself); every spread
+`spreadOkA` — `fragOk` on a possible type and **no field key of the fragment is an interface-level response key** — or
+`spreadOkB` — `fragOkB` and **no field key of the fragment (those inside its inline fragments included) is an
+interface-level field key**; **the field keys of the selections on one variant are pairwise distinct** (`varKeys`); **for
+every possible type, the field keys selected through the fragments on the abstract type itself and on the variant are
+pairwise distinct** (`bKeys ++ varKeys`): no field key has two readers — neither the emitted types nor the specification
+`conformsOpS` merge fields.  All exclusions are necessary, see `C01VariantSpread.lean` / `C01VariantSpreadE.lean`
+(`variantspread_overlap_*`, `variantspread_b_overlap_loses_key`, `variantspread_b_merge_loses_fields`).
 
 * `itemsS` / `fieldsB` / `variantHead` / `varFields` / `varItems` — closed form of the emitted items;
 * `variantspread_items_shape` — `responseItems c op = .ok (structItemsS …)` for every operation of the class.
 
-Out of scope: a selection set on an abstract type that consists of a lone spread (`hero { ...CF }`: type alias of the
-fragment's type; the class requires `__typename` at the position), inline fragments whose body is a lone spread, several
-inline fragments on the same type, spreads inside fragment bodies (recursive fragments).
+Out of scope here: inline fragments whose body is a lone spread next to other selections (class `VariantSpreadOp2` of
+`C01VariantSpreadF` / `G`), a lone spread of a fragment on a *possible* type (`hero { ...HF }`: the emitted alias rejects
+the other types' responses, `variantspread_lone_possible_type_rejects`), spreads inside fragment bodies (recursive
+fragments).
 -/
 set_option linter.unusedSimpArgs false
 set_option linter.unusedVariables false
@@ -128,14 +136,51 @@ theorem absOk2_of_absOk {s : Schema} {o : Options} {ty : TypeId} {sub : List Sel
   obtain ⟨⟨⟨⟨⟨⟨⟨h1, h2⟩, h3⟩, h4⟩, h5⟩, h6⟩, _⟩, h8⟩ := h
   exact ⟨⟨⟨⟨⟨⟨h1, h2⟩, h3⟩, h4⟩, h5⟩, h6⟩, h8⟩
 
+/-- the field keys a selection set on the abstract type selects for the possible type `vt`: its fields and the fields of
+    its inline fragments on `vt` -/
+def keysOn (s : Schema) (vt : TypeId) : List Sel → List String
+  | [] => []
+  | .field a fid _ :: xs => (match s.fields[fid]? with | some sf => [a.getD sf.name] | none => []) ++ keysOn s vt xs
+  | .inline t isub :: xs => (if t == vt then fieldKeys s isub else []) ++ keysOn s vt xs
+  | _ :: xs => keysOn s vt xs
+
+/-- the field keys selected, for the possible type `vt`, through the spreads of fragments on the abstract type `ty` itself -/
+def bKeys (s : Schema) (q : Query) (ty vt : TypeId) : List Sel → List String
+  | [] => []
+  | .spread g :: xs =>
+    (match q.fragments[g]? with
+     | some f => if f.on == ty then keysOn s vt f.sels else []
+     | none => []) ++ bKeys s q ty vt xs
+  | _ :: xs => bKeys s q ty vt xs
+
 /-- conditions at an abstract position: those of `absOk2`; every spread `spreadOkA` (part (a)) or `spreadOkB`
-    (part (b)); the field keys selected on one variant pairwise distinct -/
+    (part (b)); the field keys selected on one variant pairwise distinct; **no field key has two readers**: for every
+    possible type, the field keys selected through the fragments on the abstract type itself (part (b)) and those selected
+    on the variant (inline fragments, part (a) spreads) are pairwise distinct — fields are not merged by the emitted types
+    (known finding `C01-overlap`), and the specification `conformsOpS` does not merge them either -/
 def absOkS (s : Schema) (q : Query) (o : Options) (ty : TypeId) (sub : List Sel) : Bool :=
   absOk2 s o ty sub &&
   sub.all (fun x => match x with
     | .spread g => spreadOkA s q o ty sub g || spreadOkB s q o ty sub g
     | _ => true) &&
-  (vtsOfTy s ty).all (fun vt => EnumSpec.nodup (varKeys s q vt sub))
+  (vtsOfTy s ty).all (fun vt => EnumSpec.nodup (varKeys s q vt sub)) &&
+  (vtsOfTy s ty).all (fun vt => EnumSpec.nodup (bKeys s q ty vt sub ++ varKeys s q vt sub))
+
+/-- a selection set that is a lone spread -/
+def loneG : List Sel → Option Nat
+  | [.spread g] => some g
+  | _ => none
+
+/-- a selection set on the abstract type `ty` that is a lone spread of a fragment on `ty` itself (`hero { ...CF }`): the
+    position is a type alias of the fragment's type; `__typename` comes from the fragment -/
+def loneB (s : Schema) (q : Query) (o : Options) (ty : TypeId) (sub : List Sel) : Bool :=
+  match loneG sub with
+  | some g => fragOkB s q o ty g
+  | none => false
+
+/-- an abstract position of the class: `absOkS`, or a lone spread of a fragment on the type itself -/
+def absOkL (s : Schema) (q : Query) (o : Options) (ty : TypeId) (sub : List Sel) : Bool :=
+  absOkS s q o ty sub || loneB s q o ty sub
 
 mutual
   /-- one selection of the class; `abs`: the selection set it belongs to is on an abstract type (there, inline
@@ -150,8 +195,8 @@ mutual
          | .scalar k => (s.scalars[k]?).isSome && sub.isEmpty
          | .enum k => (s.enums[k]?).isSome && sub.isEmpty
          | .object i => (s.objects[i]?).isSome && sSels s q o false sub && EnumSpec.nodup (respKeys s sub)
-         | .interface k => (s.interfaces[k]?).isSome && sSels s q o true sub && absOkS s q o (.interface k) sub
-         | .union u => (s.unions[u]?).isSome && sSels s q o true sub && absOkS s q o (.union u) sub
+         | .interface k => (s.interfaces[k]?).isSome && sSels s q o true sub && absOkL s q o (.interface k) sub
+         | .union u => (s.unions[u]?).isSome && sSels s q o true sub && absOkL s q o (.union u) sub
          | .input _ => false)
     | _, .typename => true
     | abs, .inline t sub =>
@@ -229,19 +274,25 @@ mutual
               (fieldsOfV c (pfx ++ c.cs.camel (a.getD sf.name)) sub) ::
             itemsSs c (pfx ++ c.cs.camel (a.getD sf.name)) sub
         | .interface k =>
-          renderType c (pfx ++ c.cs.camel (a.getD sf.name)) (fieldsB c (pfx ++ c.cs.camel (a.getD sf.name)) (.interface k) sub)
-              (variantsV c (pfx ++ c.cs.camel (a.getD sf.name)) (.interface k) (marks c.q sub)) ++
-            (vtsOfTy c.s (.interface k)).flatMap (fun vt =>
-              variantHead c (pfx ++ c.cs.camel (a.getD sf.name)) vt sub ++
-                varItems c (pfx ++ c.cs.camel (a.getD sf.name)) vt sub) ++
-            itemsSs c (pfx ++ c.cs.camel (a.getD sf.name)) sub
+          (match loneG sub with
+           | some g => [aliasItem (pfx ++ c.cs.camel (a.getD sf.name)) (fragName c g) false]
+           | none =>
+             renderType c (pfx ++ c.cs.camel (a.getD sf.name)) (fieldsB c (pfx ++ c.cs.camel (a.getD sf.name)) (.interface k) sub)
+                 (variantsV c (pfx ++ c.cs.camel (a.getD sf.name)) (.interface k) (marks c.q sub)) ++
+               (vtsOfTy c.s (.interface k)).flatMap (fun vt =>
+                 variantHead c (pfx ++ c.cs.camel (a.getD sf.name)) vt sub ++
+                   varItems c (pfx ++ c.cs.camel (a.getD sf.name)) vt sub) ++
+               itemsSs c (pfx ++ c.cs.camel (a.getD sf.name)) sub)
         | .union u =>
-          renderType c (pfx ++ c.cs.camel (a.getD sf.name)) (fieldsB c (pfx ++ c.cs.camel (a.getD sf.name)) (.union u) sub)
-              (variantsV c (pfx ++ c.cs.camel (a.getD sf.name)) (.union u) (marks c.q sub)) ++
-            (vtsOfTy c.s (.union u)).flatMap (fun vt =>
-              variantHead c (pfx ++ c.cs.camel (a.getD sf.name)) vt sub ++
-                varItems c (pfx ++ c.cs.camel (a.getD sf.name)) vt sub) ++
-            itemsSs c (pfx ++ c.cs.camel (a.getD sf.name)) sub
+          (match loneG sub with
+           | some g => [aliasItem (pfx ++ c.cs.camel (a.getD sf.name)) (fragName c g) false]
+           | none =>
+             renderType c (pfx ++ c.cs.camel (a.getD sf.name)) (fieldsB c (pfx ++ c.cs.camel (a.getD sf.name)) (.union u) sub)
+                 (variantsV c (pfx ++ c.cs.camel (a.getD sf.name)) (.union u) (marks c.q sub)) ++
+               (vtsOfTy c.s (.union u)).flatMap (fun vt =>
+                 variantHead c (pfx ++ c.cs.camel (a.getD sf.name)) vt sub ++
+                   varItems c (pfx ++ c.cs.camel (a.getD sf.name)) vt sub) ++
+               itemsSs c (pfx ++ c.cs.camel (a.getD sf.name)) sub)
         | _ => []
     | _ => []
   def itemsSs (c : Ctx) (pfx : String) : List Sel → List Item
@@ -267,7 +318,30 @@ def absItemsS (c : Ctx) (name pfx : String) (ty : TypeId) (sels : List Sel) : Li
   renderType c name (fieldsB c pfx ty sels) (variantsV c pfx ty (marks c.q sels)) ++
     (vtsOfTy c.s ty).flatMap (fun vt => variantHead c pfx vt sels ++ varItems c pfx vt sels) ++ itemsSs c pfx sels
 
+/-- … or the type alias of the fragment's type, for a lone spread of a fragment on the abstract type itself -/
+def absItemsL (c : Ctx) (name pfx : String) (ty : TypeId) (sels : List Sel) : List Item :=
+  match loneG sels with
+  | some g => [aliasItem name (fragName c g) false]
+  | none => absItemsS c name pfx ty sels
+
 /-! ## basic facts -/
+
+theorem loneG_some {sub : List Sel} {g : Nat} (h : loneG sub = some g) : sub = [.spread g] := by
+  unfold loneG at h
+  split at h
+  · simp only [Option.some.injEq] at h; subst h; rfl
+  · cases h
+
+theorem loneG_lone (g : Nat) : loneG [Sel.spread g] = some g := rfl
+
+theorem loneG_none_of_ne {sub : List Sel} (h : ∀ g, sub ≠ [Sel.spread g]) : loneG sub = none := by
+  cases hl : loneG sub with
+  | none => rfl
+  | some g => exact absurd (loneG_some hl) (h g)
+
+theorem loneG_none_of_typename {sub : List Sel} (h : sub.any isTypename = true) : loneG sub = none := by
+  apply loneG_none_of_ne
+  intro g hg; subst hg; simp [isTypename] at h
 
 theorem sSels_cons {s : Schema} {q : Query} {o : Options} {abs : Bool} {x : Sel} {xs : List Sel}
     (h : sSels s q o abs (x :: xs) = true) : sSel s q o abs x = true ∧ sSels s q o abs xs = true := by
@@ -323,7 +397,7 @@ theorem absOkS_parts {s : Schema} {q : Query} {o : Options} {ty : TypeId} {sub :
         ∀ k ∈ deepKeys s f.sels, k ∉ fieldKeys s sub)) ∧
     (∀ vt ∈ vtsOfTy s ty, (varKeys s q vt sub).Nodup) := by
   simp only [absOkS, Bool.and_eq_true, List.all_eq_true] at h
-  obtain ⟨⟨h1, h2⟩, h3⟩ := h
+  obtain ⟨⟨⟨h1, h2⟩, h3⟩, _⟩ := h
   refine ⟨h1, ?_, fun vt hvt => nodup_iff'.mp (h3 vt hvt)⟩
   intro g hg
   have := h2 _ hg
@@ -346,6 +420,14 @@ theorem absOkS_parts {s : Schema} {q : Query} {o : Options} {ty : TypeId} {sub :
     rw [hs] at hk
     simpa using hk k hk'
 
+/-- the fourth part of `absOkS`: for every possible type, no field key is selected twice through the fragments on the
+    abstract type itself and the selections on the variant -/
+theorem absOkS_disjoint {s : Schema} {q : Query} {o : Options} {ty : TypeId} {sub : List Sel}
+    (h : absOkS s q o ty sub = true) :
+    ∀ vt ∈ vtsOfTy s ty, (bKeys s q ty vt sub ++ varKeys s q vt sub).Nodup := by
+  simp only [absOkS, Bool.and_eq_true, List.all_eq_true] at h
+  exact fun vt hvt => nodup_iff'.mp (h.2 vt hvt)
+
 /-! ### variant selections -/
 
 /-- the selections of a selection set on the abstract type `ty` as the generator's `VariantSel`s (a spread is one unless
@@ -356,6 +438,34 @@ def vselOfS (q : Query) (ty : TypeId) : Sel → Option VariantSel
     | some f => if f.on == ty then none else some (.spread g f)
     | none => none)
   | _ => none
+
+theorem absOkL_cases {s : Schema} {q : Query} {o : Options} {ty : TypeId} {sub : List Sel}
+    (h : absOkL s q o ty sub = true) :
+    (absOkS s q o ty sub = true ∧ loneG sub = none) ∨ (∃ g, sub = [Sel.spread g] ∧ fragOkB s q o ty g = true) := by
+  simp only [absOkL, Bool.or_eq_true] at h
+  rcases h with h | h
+  · obtain ⟨h1, _, _⟩ := absOkS_parts h
+    obtain ⟨htn, _⟩ := absOk2_parts h1
+    exact .inl ⟨h, loneG_none_of_typename htn⟩
+  · unfold loneB at h
+    cases hl : loneG sub with
+    | none => simp [hl] at h
+    | some g => simp only [hl] at h; exact .inr ⟨g, loneG_some hl, h⟩
+
+theorem absOkL_of_absOkS {s : Schema} {q : Query} {o : Options} {ty : TypeId} {sub : List Sel}
+    (h : absOkS s q o ty sub = true) : absOkL s q o ty sub = true := by
+  simp [absOkL, h]
+
+theorem absOkL_lone {s : Schema} {q : Query} {o : Options} {ty : TypeId} {g : Nat} :
+    absOkL s q o ty [Sel.spread g] = fragOkB s q o ty g := by
+  have : absOkS s q o ty [Sel.spread g] = false := by
+    cases h : absOkS s q o ty [Sel.spread g] with
+    | false => rfl
+    | true =>
+      obtain ⟨h1, _, _⟩ := absOkS_parts h
+      obtain ⟨htn, _⟩ := absOk2_parts h1
+      simp [isTypename] at htn
+  simp [absOkL, this, loneB, loneG]
 
 def vselsOfS (q : Query) (ty : TypeId) (sels : List Sel) : List VariantSel := sels.filterMap (vselOfS q ty)
 
@@ -586,8 +696,8 @@ def Q1o (fuel : Nat) : Prop := ∀ name pfx i sels e, selsDepth sels ≤ e → s
   C02.Sb N M e ≤ fuel → sSels c.s c.q c.o false sels = true →
   calcSelection c fuel name pfx (.object i) sels = .ok (structItemsS c name pfx sels)
 def Q1a (fuel : Nat) : Prop := ∀ name pfx ty sels e, selsDepth sels ≤ e → selsSize sels ≤ N →
-  C02.Sb N M e ≤ fuel → absHyp c.s ty → sSels c.s c.q c.o true sels = true → absOkS c.s c.q c.o ty sels = true →
-  calcSelection c fuel name pfx ty sels = .ok (absItemsS c name pfx ty sels)
+  C02.Sb N M e ≤ fuel → absHyp c.s ty → sSels c.s c.q c.o true sels = true → absOkL c.s c.q c.o ty sels = true →
+  calcSelection c fuel name pfx ty sels = .ok (absItemsL c name pfx ty sels)
 def Q2 (fuel : Nat) : Prop := ∀ name pfx ty sels vts e, InlB N e sels →
   vts.length + 1 + sels.length + 1 + C02.Fneed N M e N ≤ fuel →
   absHyp c.s ty → sSels c.s c.q c.o true sels = true → SpreadsA c ty sels →
@@ -674,13 +784,13 @@ theorem stepQ4 (f : Nat) (H1o : Q1o c N M f) (H1a : Q1a c N M f) (H4 : Q4 c N M 
             have hS' := H1a (pfx ++ c.cs.camel (a.getD sf.name)) (pfx ++ c.cs.camel (a.getD sf.name)) (.interface k) sub e
               (by omega) (by omega) (by omega) hty.1.1 hty.1.2 hty.2
             simp only [renderField_tree c _ _ _ _ hw hdep', hS', hR, pure, Except.pure]
-            simp [fieldsB, fieldOfSelB, itemsSs, itemsS, fieldOfSelV, hsf, hid, leafNameV, absItemsS]
+            simp [fieldsB, fieldOfSelB, itemsSs, itemsS, fieldOfSelV, hsf, hid, leafNameV, absItemsS, absItemsL]
           | union k =>
             simp only [hid, Bool.and_eq_true] at hty
             have hS' := H1a (pfx ++ c.cs.camel (a.getD sf.name)) (pfx ++ c.cs.camel (a.getD sf.name)) (.union k) sub e
               (by omega) (by omega) (by omega) hty.1.1 hty.1.2 hty.2
             simp only [renderField_tree c _ _ _ _ hw hdep', hS', hR, pure, Except.pure]
-            simp [fieldsB, fieldOfSelB, itemsSs, itemsS, fieldOfSelV, hsf, hid, leafNameV, absItemsS]
+            simp [fieldsB, fieldOfSelB, itemsSs, itemsS, fieldOfSelV, hsf, hid, leafNameV, absItemsS, absItemsL]
           | input k => simp [hid] at hty
       | spread g =>
         rw [calcFields.eq_4]
@@ -864,7 +974,14 @@ theorem stepQ2 (f : Nat) (H2 : Q2 c N M f) (H3 : Q3 c N M f) : Q2 c N M (f + 1) 
 
 theorem stepQ1a (hM : ∀ ty vts, variantsOf c.s ty = .ok (some vts) → vts.length ≤ M)
     (f : Nat) (H2 : Q2 c N M f) (H4 : Q4 c N M f) : Q1a c N M (f + 1) := by
-  intro name pfx ty sels e hD hS hF hty ht hok
+  intro name pfx ty sels e hD hS hF hty ht hokL
+  rcases absOkL_cases hokL with ⟨hok, hlg⟩ | ⟨g, rfl, hokB⟩
+  rotate_left
+  · -- a lone spread of a fragment on the abstract type itself: the type alias
+    rw [calcSelection.eq_2]
+    obtain ⟨fr, hfr, _, _, _, _⟩ := fragOkB_parts hokB
+    simp only [getFragment_of hfr, bind, Except.bind, pure, Except.pure, not_recursive_of_fragOkB hokB]
+    simp [absItemsL, loneG, fragName, hfr]
   have hns : ∀ g, sels = [Sel.spread g] → False := by
     intro g hg
     subst hg
@@ -910,7 +1027,7 @@ theorem stepQ1a (hM : ∀ ty vts, variantsOf c.s ty = .ok (some vts) → vts.len
       | succ e'' => simp only [C02.Fneed]; rw [C02.Sb_succ, C02.Sb_succ] at hF; omega
   have hfm := filterMapM_variantSelS c.q ty sels hspA.frag
   simp only [hv, bind, Except.bind, pure, Except.pure, hfm, hvar, hfields]
-  simp [absItemsS, variantsV, otherVariants]
+  simp [absItemsL, hlg, absItemsS, variantsV, otherVariants]
 
 include hn in
 theorem calc_variantspread (hM : ∀ ty vts, variantsOf c.s ty = .ok (some vts) → vts.length ≤ M) :
